@@ -151,6 +151,16 @@ structure Args where
   answer : Path
   proc : Path
 
+/-- `cli.Config.__init__`: `self.cwd = os.getcwd()` — the "working directory" every destination is joined
+    onto is the process' working directory, whatever the environment (`$PWD`, …) says.  That the
+    source still reads so is the generated `WV.Gen.Recv.config_cwd_is_os_getcwd`, a proof obligation
+    in `WV.Props.C05`. -/
+def configCwd (proc : Path) (_envPWD : Path) : Path := proc
+
+/-- the `Args` as the real entry point (`wormhole receive [-o O] [--accept-file] CODE`) builds them -/
+def entryArgs (proc envPWD : Path) (outputFile : Path) (acceptFile : Bool) (answer : Path) : Args :=
+  { cwd := configCwd proc envPWD, outputFile := outputFile, acceptFile := acceptFile, answer := answer, proc := proc }
+
 /-- `ok.lower().startswith("y") or len(ok) == 0` -/
 def answerYes (ok : Path) : Bool :=
   match ok with
@@ -342,6 +352,8 @@ basename p | dirname p | normpath p | join a b | abspath proc p      -> hex
 fs <path> <f|d|o>                -> ok           (register an existing path)
 watch <path>                     -> ok           (register a path that does not exist yet)
 args <cwd> <output_file> <accept 0/1> <answer> <proc>   -> ok
+config_cwd <proc> <$PWD>         -> hex          (cli.Config().cwd)
+entry_args <proc> <$PWD> <output_file> <accept 0/1> <answer>   -> ok   (args as the CLI entry point builds them)
 decide <name>                    -> ok <dest> | <kinds>      or   <Error> | <kinds>
 handle_file <name>               -> ok <dest> <tmp> | <kinds>
 handle_dir <mode> <name>         -> ok <dest> | <kinds>
@@ -395,6 +407,12 @@ def step (s : DrvSt) (line : String) : DrvSt × String :=
     match unhx cwd, unhx o, unhx ans, unhx proc with
     | some cwd, some o, some ans, some proc =>
       ({ s with args := { cwd := cwd, outputFile := o, acceptFile := acc == "1", answer := ans, proc := proc } }, "ok")
+    | _, _, _, _ => (s, "bad-op")
+  | ["config_cwd", c, e] =>
+    (s, match unhx c, unhx e with | some c, some e => hx (configCwd c e) | _, _ => "bad-op")
+  | ["entry_args", c, e, o, acc, ans] =>
+    match unhx c, unhx e, unhx o, unhx ans with
+    | some c, some e, some o, some ans => ({ s with args := entryArgs c e o (acc == "1") ans }, "ok")
     | _, _, _, _ => (s, "bad-op")
   | ["decide", n] =>
     match unhx n with
